@@ -18,6 +18,7 @@ whereas the package documentation gives -1 ≤ α ≤ 2 and the class default is
 import EPV.Gen.Cog18D
 import EPV.Spec.Euler1D
 import EPV.Lemmas.Euler1Db
+import EPV.Lemmas.HydroRobust
 import EPV.Tactics
 
 set_option linter.all false
@@ -32,41 +33,23 @@ theorem cog18_leaves : Cog18.okLeaves = [0] := rfl
 theorem cog18_mass (p : Cog18.P) (r t : ℝ) (hr : 0 < r) (hx : 0 < p.tau ^ 2 - t ^ 2) (hα : p.alpha ≠ 0) :
     massRes (Cog18.L0.density p) (Cog18.L0.velocity p) (p.geometry - 1) r t = 0 := by
   unfold massRes dr dt
-  rw [(Cog18.L0.density_hasDerivAt_t p r t hx).deriv, (Cog18.L0.density_hasDerivAt_r p r t hr).deriv,
-    (Cog18.L0.velocity_hasDerivAt_r p r t).deriv]
+  epv_hydro_rw_derivs [Cog18.L0.density_hasDerivAt_t p r t, Cog18.L0.density_hasDerivAt_r p r t,
+    Cog18.L0.velocity_hasDerivAt_r p r t]
   simp only [epv_deriv, epv_leaf]
-  have hr' := hr.ne'
-  have hx' := hx.ne'
-  field_simp
+  epv_hydro_field_simp
   ring
 
 theorem cog18_momentum (p : Cog18.P) (r t : ℝ) (hwd : Cog18.L0.WellDefined p r t) :
     momResT (Cog18.L0.density p) (Cog18.L0.velocity p) (Cog18.L0.temperature p) p.Gamma r t = 0 := by
-  obtain ⟨hα, hr, hx, hx', hΓ, hden, -, hρne, hk1, hγ⟩ := hwd
-  have hρr : dr (Cog18.L0.density p) r t
-      = ((-((((2 : ℝ) * p.beta) + (p.geometry - 1)) + 7)) / p.alpha) * Cog18.L0.density p r t / r := by
-    unfold dr
-    rw [(Cog18.L0.density_hasDerivAt_r p r t hr).deriv]
-    simp only [epv_deriv, epv_leaf]
-    ring
-  unfold momResT
-  rw [hρr]
-  unfold dr dt
-  rw [(Cog18.L0.velocity_hasDerivAt_t p r t hx').deriv, (Cog18.L0.velocity_hasDerivAt_r p r t).deriv,
-    (Cog18.L0.temperature_hasDerivAt_r p r t).deriv]
-  have hρne' : Cog18.L0.density p r t ≠ 0 := hρne
-  generalize Cog18.L0.density p r t = ρ at hρne' ⊢
+  have hwd' := hwd
+  unfold Cog18.L0.WellDefined at hwd'
+  epv_hydro_split hwd'
+  unfold momResT dr dt
+  epv_hydro_rw_derivs [Cog18.L0.velocity_hasDerivAt_t p r t, Cog18.L0.velocity_hasDerivAt_r p r t,
+    Cog18.L0.density_hasDerivAt_r p r t, Cog18.L0.temperature_hasDerivAt_r p r t]
   simp only [epv_deriv, epv_leaf]
-  have hr' := hr.ne'
-  -- name the denominator D = 2α - 2β - k - 7 of the temperature amplitude and eliminate β
-  generalize p.beta = β at hden ⊢
-  obtain ⟨D, rfl⟩ : ∃ D, β = (2 * p.alpha - (p.geometry - 1) - 7 - D) / 2 :=
-    ⟨2 * p.alpha - 2 * β - (p.geometry - 1) - 7, by ring⟩
-  have hD : D ≠ 0 := by
-    intro h; apply hden; rw [h]; ring
-  have e : 2 * p.alpha - 2 * ((2 * p.alpha - (p.geometry - 1) - 7 - D) / 2) - (p.geometry - 1) - 7 = D := by ring
-  rw [e]
-  field_simp
+  epv_hydro_gen_rpow
+  epv_hydro_field_simp
   ring
 
 /-- the full energy equation (heat flux included, any c, a, λ₀), γ = (k+3)/(k+1) -/
@@ -75,7 +58,15 @@ theorem cog18_energy (p : Cog18.P) (c a lam0 r t : ℝ) (hwd : Cog18.L0.WellDefi
     (hT0 : 0 < p.alpha * p.tau ^ 2 / p.Gamma / (2 * p.alpha - 2 * p.beta - (p.geometry - 1) - 7)) :
     energyResT (Cog18.L0.density p) (Cog18.L0.velocity p) (Cog18.L0.temperature p)
       p.Gamma (((p.geometry - 1) + 3) / ((p.geometry - 1) + 1)) (p.geometry - 1) c a lam0 p.alpha p.beta r t = 0 := by
-  obtain ⟨hα, hr, hx, hx', hΓ, hden, -, hρne, hk1, hγ⟩ := hwd
+  have hwd' := hwd
+  unfold Cog18.L0.WellDefined at hwd'
+  epv_hydro_split hwd'
+  have hα : p.alpha ≠ 0 := by epv_hydro_side
+  have hr : 0 < r := by epv_hydro_side
+  have hx : 0 < p.tau ^ 2 - t ^ 2 := by epv_hydro_side
+  have hΓ : p.Gamma ≠ 0 := by epv_hydro_side
+  have hden : 2 * p.alpha - 2 * p.beta - (p.geometry - 1) - 7 ≠ 0 := by epv_hydro_side
+  have hk1 : (p.geometry - 1) + 1 ≠ 0 := by epv_hydro_side
   have hρ : ∀ x, 0 < x → Cog18.L0.density p x t
       = Cog18.L0.density p 1 t * x ^ ((-((((2 : ℝ) * p.beta) + (p.geometry - 1)) + 7)) / p.alpha) := by
     intro x _; simp only [epv_leaf, Real.one_rpow]; ring
@@ -86,7 +77,7 @@ theorem cog18_energy (p : Cog18.P) (c a lam0 r t : ℝ) (hwd : Cog18.L0.WellDefi
     have e : Cog18.L0.temperature p 1 t
         = p.alpha * p.tau ^ 2 / p.Gamma / (2 * p.alpha - 2 * p.beta - (p.geometry - 1) - 7)
             * (1 / (p.tau ^ 2 - t ^ 2) ^ 2) := by
-      simp only [epv_leaf]; ring
+      simp only [epv_leaf]; epv_hydro_field_eq
     rw [e]
     exact mul_pos hT0 (by positivity)
   rw [energyResT_powerLaw _ _ _ _ _ _ _ _ _ _ _ _ _ _ _ r t hr hR hΘ hρ hT]
@@ -97,11 +88,10 @@ theorem cog18_energy (p : Cog18.P) (c a lam0 r t : ℝ) (hwd : Cog18.L0.WellDefi
   rw [hq]
   simp only [mul_zero, zero_mul, zero_div, sub_zero]
   unfold energyHydroT dr dt
-  rw [(Cog18.L0.temperature_hasDerivAt_t p r t (pow_ne_zero 2 hx')).deriv,
-    (Cog18.L0.temperature_hasDerivAt_r p r t).deriv, (Cog18.L0.velocity_hasDerivAt_r p r t).deriv]
+  epv_hydro_rw_derivs [Cog18.L0.temperature_hasDerivAt_t p r t, Cog18.L0.temperature_hasDerivAt_r p r t,
+    Cog18.L0.velocity_hasDerivAt_r p r t]
   simp only [epv_deriv, epv_leaf]
-  have hr' := hr.ne'
-  field_simp
+  epv_hydro_field_simp
   ring
 
 
@@ -110,9 +100,7 @@ example : ∃ p : Cog18.P, Cog18.L0.WellDefined p 1 (1 / 2) ∧ 0 < p.rho0 ∧
     0 < p.alpha * p.tau ^ 2 / p.Gamma / (2 * p.alpha - 2 * p.beta - (p.geometry - 1) - 7) := by
   refine ⟨⟨40, 0, -3 / 2, 0, 2, 0, 0, 3, 0, 9 / 5, 5 / 4⟩, ?_, by norm_num, by norm_num⟩
   unfold Cog18.L0.WellDefined
-  refine ⟨by norm_num, by norm_num, by norm_num, by norm_num, by norm_num, by norm_num, by norm_num, ?_,
-    by norm_num, by norm_num⟩
-  norm_num
+  (repeat' constructor) <;> norm_num
 
 /-- FINDING (false on the current tree): at the class defaults (geometry 3, α = 2, β = 1, ρ₀ = 1.8,
 τ = 1.25, Γ = 40) the returned temperature is negative, e.g. at r = 1, t = 1/2 — the heat-flux
